@@ -37,7 +37,7 @@ Definition u64 (l : bytes) (i : nat) : option Z :=
 (* little-endian 32 bit *)
 Definition u32le (l : bytes) (i : nat) : option Z :=
   match u8 l i, u8 l (1 + i), u8 l (2 + i), u8 l (3 + i) with
-  | Some a, Some b, Some c, Some d => Some (a + 256 * b + 65536 * c + 16777216 * d)
+  | Some a, Some b, Some c, Some d => Some (a + b * 256 + c * 65536 + d * 16777216)
   | _, _, _, _ => None
   end.
 
